@@ -26,6 +26,7 @@ pub const WORKLOADS: &[(&str, &[u64])] = &[
     ("w_chars", &[3, 20, 80]),
     ("w_sccthrow", &[3, 20, 80]),
     ("w_copyguard", &[3, 20, 80]),
+    ("w_attrhead", &[4, 25, 80]),
 ];
 
 pub fn pick(rng: &mut Prng) -> (&'static str, u64) {
